@@ -43,6 +43,12 @@ def gal_op(o):
         return f"ODropRelease {o['i']}%nat"
     if k == "dropclear":
         return f"ODropClear {o['i']}%nat"
+    if k == "take":
+        return f"OTake {o['i']}%nat {o['code']} {o['idx']}"
+    if k == "iter":
+        return f"OIter {o['i']}%nat"
+    if k == "vread":
+        return f"OViewRead {o['i']}%nat {o['start']}%nat {o['len']}%nat"
     if k == "pollbegin":
         return f"OPollBegin {o['i']}%nat"
     if k == "pollend":
@@ -81,7 +87,7 @@ def compare_in_coq(ctx, cases, nsh=16):
     shards = [s for s in shards if s]
     texts = []
     for sh in shards:
-        lines = ["From EC Require Import Base.Prelude Base.Bytes Pdu.Frame Pdu.Slots Wire.Check.", "Local Open Scope N_scope.",
+        lines = ["From EC Require Import Base.Prelude Base.Bytes Pdu.Frame Pdu.Slots Pdu.View Pdu.Hist Wire.Check.", "Local Open Scope N_scope.",
                  "Definition cases : list ((bool * nat * nat * list op) * list Z) := [",
                  ";\n".join(gal_case(c) for c in sh), "].",
                  "Eval vm_compute in (0, map fst (mismatches (fun c => obs_history (fst (fst (fst c))) (snd (fst (fst c))) (snd (fst c)) (snd c)) cases 0))."]
